@@ -59,6 +59,12 @@ class VLoop(asyncio.SelectorEventLoop):
         return [h for h in self._scheduled if not h._cancelled]
 
 
+# what a failing send() can report: the peer is gone (EPIPE / ECONNRESET), or the path is (half-open connection timing out,
+# route lost) - the latter are OSErrors outside the ConnectionError family
+WRITE_ERRORS = [lambda: BrokenPipeError(32, "Broken pipe"), lambda: ConnectionResetError(104, "Connection reset by peer"),
+                lambda: TimeoutError(110, "Connection timed out"), lambda: OSError(113, "No route to host")]
+
+
 class FakeTransport(asyncio.Transport):
     """One TCP connection as the client sees it."""
 
@@ -73,6 +79,7 @@ class FakeTransport(asyncio.Transport):
         self.lost_called = False      # protocol.connection_lost has run
         self.client_closed = False
         self.fail_writes = False      # next write raises inside the transport (fatal error)
+        self.fail_kind = 0            # which OSError the kernel reports for it (see WRITE_ERRORS)
         self.paused = False
         self.nwrites = 0
         self.eof_sent = False
@@ -88,7 +95,7 @@ class FakeTransport(asyncio.Transport):
         self.nwrites += 1
         if self.fail_writes:
             self.net.ev("write_fault", self.cid, bytes(data))
-            self._force_close(BrokenPipeError(32, "injected write error"))
+            self._force_close(WRITE_ERRORS[self.fail_kind % len(WRITE_ERRORS)]())
             return
         self.net.ev("write", self.cid, bytes(data))
 
@@ -158,10 +165,11 @@ class FakeTransport(asyncio.Transport):
                 self.net.ev("lost", self.cid, "eof")
                 self.loop.call_soon(self._call_connection_lost, None)
 
-    def peer_reset(self):
+    def peer_reset(self, kind=1):
+        """a failed recv(): the transport is lost with the OSError the kernel reported (default ECONNRESET)"""
         if not self.conn_lost:
             self.net.ev("peer_reset", self.cid)
-            self._force_close(ConnectionResetError(104, "peer reset"))
+            self._force_close(WRITE_ERRORS[kind % len(WRITE_ERRORS)]())
 
     def block_writes(self):
         if not self.paused and not self.conn_lost:
